@@ -47,16 +47,94 @@ Print Assumptions wf_no_unsupported_deserialize_field.
 (* whole codecs -- serialize, size, deserialize, factory deserialize: for a well-formed schema, ANY value, ANY buffer, ANY type name, ANY
    nesting fuel -- never Unsupported.  Premise: the sort-key view does not answer Unsupported (it does only for a comparer member holding a value
    of the wrong shape, which no admissible value has). *)
-Theorem wf_no_unsupported : forall OP tm, wf_schema tm = true ->
+Theorem wf_no_unsupported_partial : forall OP tm, wf_schema tm = true ->
   (forall fuel t v, key OP tm fuel t v <> Crash "Unsupported") ->
   forall fuel t v b,
     enc OP tm fuel t v <> Crash "Unsupported" /\ size OP tm fuel t v <> Crash "Unsupported"
     /\ dec OP tm fuel t b <> Crash "Unsupported" /\ decf OP tm fuel t b <> Crash "Unsupported".
 Proof. exact codecs_no_unsupported_all. Qed.
-Print Assumptions wf_no_unsupported.
+Print Assumptions wf_no_unsupported_partial.
 
 (* non-vacuity: outside wf_schema the Unsupported outcome is reachable (array of 16-bit ints), and wf_schema rejects that schema *)
 Example wf_excludes_something :
   enc ops_now bad_schema type_fuel "Ho" (VStruct "Ho" [("ws", VArr [VInt 1%Z; VInt 2%Z])]) = Crash "Unsupported" /\ wf_schema bad_schema = false.
 Proof. exact unsupported_reachable. Qed.
 Print Assumptions wf_excludes_something.
+
+(* ---- non-vacuity of the premises ---- *)
+From Symv Require Import Cats.Layout.
+From Coq Require Import String List.
+
+(* a schema without @comparer structs satisfies the key premise of wf_no_unsupported_partial (for every operator record) *)
+
+Definition no_comparer (tm : list decl) : bool :=
+  forallb (fun d => match d with DStruct s => match find_attr (s_attrs s) "comparer" with None => true | Some _ => false end | _ => true end) tm.
+
+Lemma key_premise_without_comparer : forall OP tm, no_comparer tm = true -> forall fuel t v, key OP tm fuel t v <> Crash "Unsupported".
+Proof.
+  intros OP tm Hn fuel t v. destruct fuel as [|k]; [discriminate|]. cbn [key].
+  destruct (lookup tm t) as [d|] eqn:E; [|discriminate].
+  destruct d as [n l c|n b vs a c|s].
+  - destruct l; destruct v; discriminate.
+  - destruct v; discriminate.
+  - destruct v; try discriminate.
+    assert (Hs : find_attr (s_attrs s) "comparer" = None).
+    { unfold lookup in E. apply find_some in E. destruct E as [Hin _]. unfold no_comparer in Hn. rewrite forallb_forall in Hn.
+      specialize (Hn _ Hin). cbn in Hn. destruct (find_attr (s_attrs s) "comparer"); [discriminate|reflexivity]. }
+    rewrite Hs. discriminate.
+Qed.
+
+(* PARTIAL: the premise on `key` holds for every schema without a @comparer struct (proved above) but is false for schemas that have
+   one (see the refutation example below): the FULL statement - the same conclusion for every well-formed schema with the premise
+   restricted to comparer members holding values of their declared shape - is not proved.
+   non-vacuity of wf_no_unsupported_partial on the shipped SYMBOL schema: it is well-formed and has no @comparer struct, so the key premise
+   holds and the conclusion is obtained for every fuel, type name, value and buffer *)
+Example wf_no_unsupported_nonvacuous_on_symbol :
+  wf_schema sc_schema = true /\ (forall fuel t v, key ops_now sc_schema fuel t v <> Crash "Unsupported")
+  /\ (forall fuel t v b,
+        enc ops_now sc_schema fuel t v <> Crash "Unsupported" /\ size ops_now sc_schema fuel t v <> Crash "Unsupported"
+        /\ dec ops_now sc_schema fuel t b <> Crash "Unsupported" /\ decf ops_now sc_schema fuel t b <> Crash "Unsupported").
+Proof.
+  assert (Hk : forall fuel t v, key ops_now sc_schema fuel t v <> Crash "Unsupported").
+  { apply key_premise_without_comparer. vm_compute. reflexivity. }
+  split; [exact (proj1 wf_shipped_both)|]. split; [exact Hk|].
+  exact (codecs_no_unsupported_all ops_now sc_schema (proj1 wf_shipped_both) Hk).
+Qed.
+Print Assumptions wf_no_unsupported_nonvacuous_on_symbol.
+
+(* FINDING (kept visible): on the shipped NEM schema the key premise of wf_no_unsupported_partial is FALSE.  nc_schema is well-formed, but the
+   sort-key view of a MultisigAccountModification whose `modification_type` member holds a byte string (a value of the wrong shape) answers
+   Unsupported, and the premise quantifies over ALL values.  Hence wf_no_unsupported_partial says nothing about nc_schema (nor about any schema
+   with a @comparer struct that has a member of a named type): its statement is weaker than the comment above it ("whole codecs ... for a
+   well-formed schema, ANY value").  The per-member theorems wf_no_unsupported_serialize_field / _deserialize_field and
+   wf_members_classified do apply to nc_schema.  A full-strength statement would restrict the premise (or the conclusion for the keyed-array
+   members) to values whose comparer members have the declared shape. *)
+Example wf_no_unsupported_key_premise_refuted_on_nem :
+  wf_schema nc_schema = true
+  /\ key ops_now nc_schema 1 "MultisigAccountModification"
+       (VStruct "MultisigAccountModification" [("modification_type", VBytes []); ("cosignatory_public_key", VBytes [1%Z])])
+     = Crash "Unsupported"
+  /\ ~ (forall fuel t v, key ops_now nc_schema fuel t v <> Crash "Unsupported").
+Proof.
+  split; [exact (proj2 wf_shipped_both)|]. split; [vm_compute; reflexivity|].
+  intro H. apply (H 1%nat "MultisigAccountModification"
+    (VStruct "MultisigAccountModification" [("modification_type", VBytes []); ("cosignatory_public_key", VBytes [1%Z])])).
+  vm_compute. reflexivity.
+Qed.
+Print Assumptions wf_no_unsupported_key_premise_refuted_on_nem.
+
+(* non-vacuity of the per-member theorems: a codec record that never answers Unsupported, and the members of the shipped Symbol transfer
+   transaction, all statically classified on both sides *)
+Example field_premises_nonvacuous :
+  let R := {| enc_t := fun _ _ => Ok []; size_t := fun _ _ => Ok 0%Z; dec_t := fun _ _ => Reject; decf_t := fun _ _ => Reject;
+              key_t := fun _ _ => Crash "TypeError" |} in
+  ((forall t v, enc_t R t v <> Crash "Unsupported") /\ (forall t v, size_t R t v <> Crash "Unsupported") /\ (forall t v, key_t R t v <> Crash "Unsupported"))
+  /\ ((forall t b, dec_t R t b <> Crash "Unsupported") /\ (forall t b, decf_t R t b <> Crash "Unsupported")
+      /\ (forall t v, size_t R t v <> Crash "Unsupported") /\ (forall t v, key_t R t v <> Crash "Unsupported"))
+  /\ match lookup_struct sc_schema "TransferTransactionV1" with
+     | Some s => forallb (ser_static_ok sc_schema s (struct_fields_nc s)) (struct_fields_nc s) = true
+                 /\ forallb (des_static_ok sc_schema (struct_fields_nc s)) (struct_fields_nc s) = true
+     | None => False
+     end.
+Proof. split; [repeat split; discriminate|]. split; [repeat split; discriminate|]. vm_compute. split; reflexivity. Qed.
+Print Assumptions field_premises_nonvacuous.
